@@ -329,6 +329,66 @@ class SimTextStream(SimStream):
         raise io.UnsupportedOperation('fileno')
 
 
+class OsShim:
+    """Stands in for the `os` module inside segno.writers / segno.cli *if* they use it on output files (they do not at
+    the pinned commit; a change that writes to a temporary name and renames it would): rename/replace/remove act on
+    SimFS, everything else is the real module."""
+
+    def __init__(self, fs):
+        self._fs = fs
+        self.path = _OsPathShim(fs)
+
+    def replace(self, src, dst):
+        fs = self._fs
+        src, dst = os.fspath(src), os.fspath(dst)
+        if src not in fs.files:
+            raise make_oserror('ENOENT', src)
+        f = fs.plan.check('rename', dst)
+        if f is not None:
+            raise make_oserror(f['errno'], dst)
+        fs.files[dst] = fs.files.pop(src)
+        fs.state[dst] = fs.state.pop(src)
+        fs.log('rename', src, dst)
+
+    rename = replace
+
+    def remove(self, path):
+        fs = self._fs
+        path = os.fspath(path)
+        if path not in fs.files:
+            raise make_oserror('ENOENT', path)
+        del fs.files[path]
+        fs.state.pop(path, None)
+        fs.log('remove', path)
+
+    unlink = remove
+
+    def fsync(self, fd):
+        return None
+
+    def __getattr__(self, name):
+        return getattr(os, name)
+
+
+class _OsPathShim:
+    def __init__(self, fs):
+        self._fs = fs
+
+    def exists(self, p):
+        return os.fspath(p) in self._fs.files
+
+    isfile = exists
+
+    def getsize(self, p):
+        p = os.fspath(p)
+        if p not in self._fs.files:
+            raise make_oserror('ENOENT', p)
+        return len(self._fs.files[p])
+
+    def __getattr__(self, name):
+        return getattr(os.path, name)
+
+
 class World:
     """One simulated environment: clock + file system (+ gzip shim), installed into segno.writers."""
 
@@ -344,6 +404,8 @@ class World:
         writers.open = self.fs.open
         writers.time = self.clock
         writers.gzip = self.gzip
+        if 'os' in vars(writers):      # not at the pinned commit; see OsShim
+            writers.os = OsShim(self.fs)
         return self
 
     @staticmethod
